@@ -617,6 +617,20 @@ int main(int argc, char **argv) {
           sc += pscale(x, rr) * pscale(y, rr) / rr;
           clus += cluster_energy(x, y, 0.04L * rr);
         }
+      // already polarised sites: the static energy is that of the permanent moments, whatever induced dipoles the polar
+      // sites carry at the time (half of the cases)
+      bool polarised = r.coin(0.5);
+      if (polarised) {
+        for (PolarSite &x : a2) x.setInduced_Dipole(Eigen::Vector3d(r.uni(-1, 1), r.uni(-1, 1), r.uni(-1, 1)));
+        for (PolarSite &x : b2) x.setInduced_Dipole(Eigen::Vector3d(r.uni(-1, 1), r.uni(-1, 1), r.uni(-1, 1)));
+        R.counter("segments_with_induced_dipoles_on_the_polar_sites");
+        // site level, arguments of static type PolarSite
+        LD ssum = 0;
+        for (const PolarSite &x : a2)
+          for (const PolarSite &y : b2) ssum += (LD)ee.CalcStaticEnergy_site(x, y);
+        if (fabsl(ssum - sum) > 1e-12L * sc)
+          R.violation("segments/energy-depends-on-induced-dipoles", "CalcStaticEnergy_site called with polarised PolarSite arguments differs from the energy of their permanent moments", J().d("E_polar_sites", (double)ssum).d("E_static_copies", (double)sum));
+      }
       double e[6] = {ee.CalcStaticEnergy(a1, b1), ee.CalcStaticEnergy(b1, a1), ee.CalcStaticEnergy(a2, b2), ee.CalcStaticEnergy(b2, a2), ee.CalcStaticEnergy(a1, b2), ee.CalcStaticEnergy(a2, b1)};
       R.eval("segments");
       for (int k = 0; k < 6; ++k)
@@ -625,7 +639,7 @@ int main(int argc, char **argv) {
           std::string ja = "[", jb = "[";
           for (size_t q = 0; q < SA.size(); ++q) ja += (q ? "," : "") + sjson(SA[q]);
           for (size_t q = 0; q < SB.size(); ++q) jb += (q ? "," : "") + sjson(SB[q]);
-          w.raw("segmentA", ja + "]").raw("segmentB", jb + "]").i("variant", k).d("E", e[k]).d("sum_of_site_pairs", (double)sum).d("cluster_sum", (double)clus);
+          w.raw("segmentA", ja + "]").raw("segmentB", jb + "]").b("polar_sites_carry_induced_dipoles", polarised).i("variant", k).d("E", e[k]).d("sum_of_site_pairs", (double)sum).d("cluster_sum", (double)clus);
           R.violation("segments/energy", "CalcStaticEnergy(segment,segment) differs from the sum over site pairs / the cluster energy (variants: SS, SS swapped, PP, PP swapped, SP, PS)", w);
           break;
         }
